@@ -32,8 +32,10 @@ RULE = (
     "save_cache, clean exit with atexit save, crash exit, restart with the same "
     "info_cache, load_cache, find with/without cache, external corruption): one "
     "fault-free execution per history plus one execution per numbered disk step "
-    "of every save_cache in it (crash before that step; for write steps also "
-    "torn-write variants), each followed by restart and the old-or-new check. "
+    "of every save_cache in it (crash before that step; for buffer flushes also "
+    "three torn-write variants; for every system-call step and a sample of the "
+    "python-level writes additionally an OSError raised there instead of a "
+    "crash), each followed by restart and the old-or-new check. "
     "Non-trivial = the execution crashed inside a save whose cache held >= 1 "
     "entry, or loaded a corrupted file, or compared a non-empty restored cache. "
     "Distinct = distinct (history digest, fault point) pairs.")
@@ -304,7 +306,7 @@ def gen_workload(tape):
         if op == "corrupt":
             o["how"] = tape.pick(["truncate", "wrong_type", "missing_key",
                                   "bad_time", "non_utf8", "empty", "missing_file",
-                                  "unreadable", "directory"], "how")
+                                  "unreadable", "directory", "truncate_sweep"], "how")
             o["arg"] = tape.choice(1000, "carg")
         elif op == "populate_some":
             o["which"] = [i for i in range(n) if tape.flag("some", 1, 2)]
@@ -380,6 +382,7 @@ class Exec:
         self.distinct = []
         self.branch_samples = []
         self.blog = []
+        self.sweeps = 0
         self.atexit_save = False
         self.atexit = _Atexit()
         self.V = []
@@ -729,6 +732,25 @@ class Exec:
             doc = None
         label = None
         new = data
+        if how == "truncate_sweep" and len(data) >= 2 and os.path.exists(path):
+            # truncation at every byte offset (stride for long documents):
+            # each must give a warning and an empty cache on restart
+            stride = max(1, len(data) // 600)
+            keep_atexit = self.atexit
+            for cut in range(0, len(data), stride):
+                with open(path, "wb") as f:
+                    f.write(data[:cut])
+                self.last_corruption = "truncated"
+                self.atexit = _Atexit()
+                with patched((_T["fsmod"], "atexit", self.atexit)):
+                    self._construct()
+                self.sweeps += 1
+            self.atexit = keep_atexit
+            with open(path, "wb") as f:
+                f.write(data)
+            self.probe("corrupt_truncated_sweep")
+            self.probe("corrupt_truncated")
+            return
         if how == "truncate" and len(data) >= 2:
             new = data[:arg % (len(data) - 1)]   # never the complete document
             label = "truncated"
@@ -906,12 +928,13 @@ def run_one(tape, only=None):
             uniq.append(v)
     steps = list(ex.disk.steps_per_save)
     res["violations"] = uniq
-    res["executions"] = 1 + ex.branches
+    res["executions"] = 1 + ex.branches + ex.sweeps
     res["faults"] = ex.faults
     res["probes"] = ex.probes
     res["nontrivial"] = ex.nontrivial or bool(ex.distinct)
     res["wdigest"] = wd
     res["edigest"] = digest_of([digest_of(ex.log)] + ex.blog)
+    res["trace"] = {"main_line_disk_log": ex.log[-60:], "branch_examples": ex.branch_samples}
     res["distinct_keys"] = [f"{wd}:{d}" for d in ex.distinct] + \
         ([f"{wd}:main"] if ex.nontrivial else [])
     res["counters"] = {"crash_points": ex.branches, "saves": len(steps),
